@@ -194,6 +194,24 @@ reg('C20', 'exploration',
     'set-up path', 'E4-bounded-exhaustive-enumeration')
 
 
+reg('C11', 'exploration',
+    'Complete product {npz,hdf5} x compress x detailed_output x only_real '
+    'over an enumerated family of particle-array lists (0/1/3 particles, '
+    'five tag patterns, four output-list shapes, with and without '
+    'constants; every C type x stride {1,3} x default {0,3}; two arrays '
+    'with different property sets and constants; empty arrays; no arrays), '
+    'plus version-1 npz fixtures written in the documented v1 layout; the '
+    'real dump()/load() pair is run on every case and name, per-property '
+    'C type / stride / default, constants, output list, stored values (as '
+    'per-particle record multisets) and solver data are compared.',
+    'Trusted: the comparison code; an empty output list is taken as '
+    'equivalent to all properties. The family is finite and small by '
+    'design: the writers/readers branch on shape (type, stride, stored or '
+    'not, empty), not on values.',
+    'bounded-exhaustive enumeration of shapes x options, round-trip oracle',
+    'E4-bounded-exhaustive-enumeration')
+
+
 def main():
     props = [json.loads(l) for l in open(os.path.join(V, 'properties.jsonl'))]
     checks = []
